@@ -35,6 +35,8 @@ ASSUMPTIONS = [
     "`: type`, `:` as documented; Sphinx: text first, then `:param|:var|:returns|:raises` fields with optional `:type|:vartype|:rtype` or an in-line `:param type name:` (the "
     "docs only link to the Sphinx tutorial), descriptions compared after folding white space",
     "free text after a section is generated for Google only (Numpy/Sphinx have no documented way to end a section other than a new header/field)",
+    "a docstring line is what lies between two newline characters: description, text and admonition lines may contain \\x0b \\x0c \\x1c-\\x1e "
+    "\\x85 \\u2028 \\u2029 or \\r in their middle (1 line in 8); they must come back unchanged",
     "descriptions: the first physical line never contains a colon (it would be ambiguous with `name: description` in Returns-like sections); "
     "later lines may; no line is blank at the start or end of a description",
     "each section kind other than text/examples/admonition occurs at most once per docstring; item names are unique per docstring",
@@ -265,7 +267,26 @@ def _known_numpy_aliases(case, fail: Fail) -> bool:
     return any(sec["kind"] == m.group(1) and sec["head"].lower() in aliases for sec in case["sections"])
 
 
+def _known_google_single_item_splitlines(case, fail: Fail) -> bool:
+    """Google Returns/Yields/Receives read as a single item (`*_multiple_items=False`): the block is cut with str.splitlines(), so a
+    description line containing \x0b \x0c \x1c-\x1e \x85 \u2028 \u2029 or \r comes back with that character turned into a line break."""
+    if case["style"] != "google" or fail.clause != "items":
+        return False
+    m = re.match(r"google:(returns|yields|receives):description$", fail.kind)
+    if not m:
+        return False
+    kind = m.group(1)
+    if case["opts"].get("receives_multiple_items" if kind == "receives" else "returns_multiple_items"):
+        return False
+    j = (fail.detail or {}).get("item", -1)
+    for sec in case["sections"]:
+        if sec["kind"] == kind and 0 <= j < len(sec["items"]):
+            return any(ch in ln for ln in sec["items"][j]["desc"] for ch in S.LINE_INTERNAL)
+    return False
+
+
 KNOWN = {
+    "google-single-item-splitlines": _known_google_single_item_splitlines,
     "numpy-returns-bare-name": _known_numpy_bare_name,
     "numpy-documented-aliases": _known_numpy_aliases,
 }
